@@ -117,9 +117,11 @@ def site(rng, k):
     if kind == "param-shadow":
         # a helper parameter named like a top-level constant: inside the helper the parameter's run-time value counts
         g, arg = rng.choice([("hello", "hi"), ("abcd", "x"), ("", "four")])
-        pre = f'msg{k} = "{g}"\ndef show{k}(msg{k}: str):\n    mon.write(len(msg{k}))\n    sleep(len(msg{k}) * 10)\n'
-        lit = pre.replace(f"len(msg{k})", str(len(arg))) + f'show{k}("{arg}")'
-        use = pre + f'show{k}("{arg}")'
+        ann = rng.choice([": str", "", ""])   # (without an annotation the call site decides the parameter's type)
+        # (the call is an assignment: a helper called as a bare statement gets no call-site types - finding stmt-call-types)
+        pre = f'msg{k} = "{g}"\ndef show{k}(msg{k}{ann}):\n    mon.write(len(msg{k}))\n    sleep(len(msg{k}) * 10)\n    return len(msg{k}) + 1\n'
+        lit = pre.replace(f"len(msg{k})", str(len(arg))) + f'rs{k} = show{k}("{arg}")\nmon.write(rs{k})'
+        use = pre + f'rs{k} = show{k}("{arg}")\nmon.write(rs{k})'
         return dict(kind=kind, var=v, decl=f"{v} = 0", lit=lit, use=use, expr=use, mut=None, mut_lit=None, whole=True)
     if kind == "led-rebind":
         # the same Led name bound twice: operations before the re-binding act on the first pin
